@@ -73,10 +73,10 @@ def opf_accuracy(
     labels = np.asarray(labels)
     preds = np.asarray(preds)
 
-    n_class = np.max(labels) + 1
+    n_class = max(np.max(labels), np.max(preds)) + 1
 
     errors = np.zeros((n_class, 2))
-    counts = np.bincount(labels)
+    counts = np.bincount(labels, minlength=n_class)
 
     for label, pred in zip(labels, preds):
         if label != pred:
